@@ -198,6 +198,18 @@ def check(chk):
         m = rs.methods[name]
         ok = any(call_attr(c) == "_remove_delay_handler" for c in m.calls())
         chk.ob("PAIR-20", "%s() cancels the pending step first (no second timer chain)" % name, ok, m.where(), construct=m.ident, text=name + " cancels pending")
+    # manual stepping: cancel, rebase and move the index *before* the step runs; the step runs last and once
+    for name in ("advance", "step_back"):
+        m = rs.methods[name]
+        mc = m.cfg()
+        run = [n for n, c in mc.calls_named("_run_next_step")]
+        idx = [n for n in mc.nodes if n.kind == "stmt" and isinstance(n.ast, (ast.Assign, ast.AugAssign)) and
+               src(n.ast.targets[0] if isinstance(n.ast, ast.Assign) else n.ast.target) == "self.next_step_index"]
+        pre = [n for n, c in mc.calls_named("_remove_delay_handler")] + \
+            [n for n in mc.nodes if n.kind == "stmt" and isinstance(n.ast, ast.Assign) and src(n.ast.targets[0]) == "self.next_step_time"]
+        ok = len(run) == 1 and bool(idx) and all(x.id not in mc.reachable([run[0].id], include_start=False) for x in idx + pre) and len(pre) >= 2 and all(mc.dominates(x.id, run[0].id) for x in pre)
+        chk.ob("DOM-32", "%s() cancels the pending step, rebases the clock and moves the index before it runs the step (once, last)" % name, ok, m.where(),
+               construct=m.ident, text=name + " order")
     sp = rs.methods["_start_play"]
     spc = sp.cfg()
     ok = any(b.kind == "branch" and src(b.ast) == "self._stopped" for b in spc.nodes)
@@ -432,6 +444,7 @@ def battery():
         M("resume keeps the old deadline", SH, "        self.next_step_time = self.machine.clock.get_time()\n        self._run_next_step(post_events=self.show_config.events_when_resumed)", "        self.next_step_time = max(self.next_step_time, self.machine.clock.get_time())\n        self._run_next_step(post_events=self.show_config.events_when_resumed)", "DOM-31"),
         M("pending start callback only while the start timer is pending", SH, "        if self.start_callback:\n            self.start_callback()\n            self.start_callback = None\n\n        self._remove_delay_handler()\n\n        # clear context in used players", "        if self._delay_handler:\n            if self.start_callback:\n                self.start_callback()\n                self.start_callback = None\n            self._remove_delay_handler()\n\n        # clear context in used players", "PAIR-20"),
         M("twin: pending step removed only when there is one", SH, "        self._remove_delay_handler()\n\n        # clear context in used players", "        if self._delay_handler:\n            self._remove_delay_handler()\n\n        # clear context in used players", None),
+        M("step_back runs the step before it moves the index", "mpf/assets/show.py", "        self.next_step_index -= steps + 1\n\n        self._run_next_step(post_events=self.show_config.events_when_stepped_back)", "        self._run_next_step(post_events=self.show_config.events_when_stepped_back)\n        self.next_step_index -= steps + 1", "DOM-32"),
     ]
 
 
